@@ -8,11 +8,11 @@
       of blocks of substitutions, a tuple assignment becomes a block of
       substitutions, and the two initialisation blocks that expand_spec itself builds
       hold declarations only.
-   2. The adapter [skel] sends [ast_init_ok] to [init_flat] and a block to a block,
-      which is [desugared_shape]. *)
+   2. [ast_init_ok] is LiftFull.ast_init_flat (a clause of LiftFull.definition_wf), which
+      LiftFull.skel sends to [init_flat], and a block to a block: [desugared_shape]. *)
 From Coq Require Import ZArith NArith List Bool String Lia.
 Require Import Model.Ast Model.Desugar Spec.ExpandSpec Proofs.DesugarProofs Proofs.DesugarRefine Proofs.DesugarAlpha.
-Require Model.PipelineMirrors Model.Lift Proofs.LiftTotalFlat.
+Require Model.PipelineMirrors Model.Lift Model.LiftFull Model.Ir Proofs.LiftTotalFlat Proofs.LiftFullTotal.
 Import ListNotations.
 Local Open Scope list_scope.
 
@@ -244,77 +244,125 @@ Section Expand.
 End Expand.
 
 (* ------------------------------------------------------------------------ *)
-(* the adapter                                                               *)
+(* the shape on the syntax tree is the shape of the skeleton                  *)
 (* ------------------------------------------------------------------------ *)
-Fixpoint skel_list (l : list statement) (n : nat) : list Lift.sk :=
-  match l with
-  | [] => []
-  | x :: r => PM.skel x n :: skel_list r (n + PM.size x)
-  end.
+(* PM.ast_flat / PM.ast_init_ok are LiftFull.ast_flat / LiftFull.ast_init_flat (the
+   clause of LiftFull.definition_wf) *)
+Lemma ast_flat_eq : forall s, PM.ast_flat s = LiftFull.ast_flat s.
+Proof. reflexivity. Qed.   (* the two fixpoints have the same body *)
 
-Lemma skel_block m l n : PM.skel (Block m l) n = Lift.SBlock (skel_list l n).
-Proof.
-  reflexivity.
-Qed.
+Lemma ast_init_ok_flat : forall s, PM.ast_init_ok s = LiftFull.ast_init_flat s.
+Proof. reflexivity. Qed.
 
-Lemma skel_init m t l n : PM.skel (InitializationBlock m t l) n = Lift.SInit (skel_list l n).
+(* a block with well-shaped initialisation blocks has a skeleton of the shape
+   Proofs.LiftTotalFlat asks for, whatever function of the metas names the leaves *)
+Theorem skel_desugared_shape (key : Ir.meta -> nat) body :
+  LiftFull.is_block body = true -> LiftFull.ast_init_flat body = true ->
+  LiftTotalFlat.desugared_shape (LiftFull.skel key body).
 Proof.
-  reflexivity.
-Qed.
-
-Lemma skel_list_forallb (f : statement -> bool) (g : Lift.sk -> bool) : forall l,
-  Forall (fun s => f s = true -> forall n, g (PM.skel s n) = true) l ->
-  forallb f l = true -> forall n, forallb g (skel_list l n) = true.
-Proof.
-  induction 1 as [|x r Hx _ IH]; simpl; intros H n; [reflexivity|].
-  apply andb_prop in H. destruct H as [H1 H2]. rewrite (Hx H1 n), (IH H2). reflexivity.
-Qed.
-
-Lemma skel_flat : forall s, PM.ast_flat s = true -> forall n, LiftTotalFlat.flat (PM.skel s n) = true.
-Proof.
-  apply (statement_ind' (fun s => PM.ast_flat s = true -> forall n, LiftTotalFlat.flat (PM.skel s n) = true));
-    try (intros; reflexivity); try (simpl; intros; discriminate).
-  - intros m t l IH H n. rewrite skel_init. cbn [LiftTotalFlat.flat]. cbn [PM.ast_flat] in H.
-    apply (skel_list_forallb PM.ast_flat LiftTotalFlat.flat l IH H).
-  - intros m l IH H n. rewrite skel_block. cbn [LiftTotalFlat.flat]. cbn [PM.ast_flat] in H.
-    apply (skel_list_forallb PM.ast_flat LiftTotalFlat.flat l IH H).
-Qed.
-
-Lemma skel_init_flat : forall s, PM.ast_init_ok s = true -> forall n, LiftTotalFlat.init_flat (PM.skel s n) = true.
-Proof.
-  apply (statement_ind' (fun s => PM.ast_init_ok s = true -> forall n, LiftTotalFlat.init_flat (PM.skel s n) = true));
-    try (intros; reflexivity).
-  - intros m c i e IHi IHe H n. cbn [PM.ast_init_ok] in H. apply andb_prop in H. destruct H as [H1 H2].
-    cbn [PM.skel LiftTotalFlat.init_flat]. rewrite (IHi H1). destruct e as [e'|]; [|reflexivity].
-    rewrite (IHe e' eq_refl H2). reflexivity.
-  - intros m c b IHb H n. cbn [PM.skel LiftTotalFlat.init_flat]. apply IHb. exact H.
-  - intros m t l _ H n. rewrite skel_init. cbn [LiftTotalFlat.init_flat]. cbn [PM.ast_init_ok] in H.
-    apply (skel_list_forallb PM.ast_flat LiftTotalFlat.flat l); [|exact H].
-    apply Forall_forall. intros x _. apply skel_flat.
-  - intros m l IH H n. rewrite skel_block. cbn [LiftTotalFlat.init_flat]. cbn [PM.ast_init_ok] in H.
-    apply (skel_list_forallb PM.ast_init_ok LiftTotalFlat.init_flat l IH H).
-Qed.
-
-Theorem skel_desugared_shape body n :
-  (exists m l, body = Block m l) -> PM.ast_init_ok body = true ->
-  LiftTotalFlat.desugared_shape (PM.skel body n).
-Proof.
-  intros (m & l & ->) H. split.
-  - rewrite skel_block. eauto.
-  - apply skel_init_flat. exact H.
+  intros Hb H. destruct body; try discriminate Hb. split.
+  - cbn [LiftFull.skel]. eauto.
+  - rewrite LiftFullTotal.skel_init_flat. exact H.
 Qed.
 
 (* what C18 hands on: the answer of the two passes is the specified expansion
-   (C18_desugar_refines_expand), whose shape is the one above *)
+   (C18_desugar_refines_expand), whose shape is the one above: two of the four
+   clauses of LiftFull.definition_wf, and the shape of the skeleton *)
 Theorem desugar_output_shape (lib : file_library) ts m l body' :
   Forall wf_node (stmt_exprs (Block m l)) ->
   Forall short_node (sub_stmts (Block m l)) ->
   PM.ast_init_ok (Block m l) = true ->
   desugar_template (env_of ts) lib (Block m l) = DOk body' ->
-  LiftTotalFlat.desugared_shape (PM.skel body' 0).
+  LiftFull.is_block body' = true /\ LiftFull.ast_init_flat body' = true /\
+  forall key : Ir.meta -> nat, LiftTotalFlat.desugared_shape (LiftFull.skel key body').
 Proof.
   intros Hw Hs Hok Hd.
   pose proof (desugar_refines_expand lib ts m l body' Hw Hs Hd) as He.
-  destruct (expand_spec_shape _ _ _ _ _ Hok He) as [Hb Hi].
-  apply skel_desugared_shape; assumption.
+  destruct (expand_spec_shape _ _ _ _ _ Hok He) as [(m' & l' & ->) Hi].
+  rewrite ast_init_ok_flat in Hi.
+  split; [reflexivity|]. split; [exact Hi|]. intros key. apply skel_desugared_shape; [reflexivity|exact Hi].
+Qed.
+
+(* ------------------------------------------------------------------------ *)
+(* C18's sugar-freeness is the clause of LiftFull.definition_wf               *)
+(* ------------------------------------------------------------------------ *)
+(* Spec.ExpandSpec.sugar_free_stmt (what C18_desugar_output_sugar_free and
+   C18_function_kept_iff prove of a body handed on) says: no tuple and no anonymous
+   component among ALL expression nodes, no multi-substitution among all statements.
+   LiftFull.stmt_sugar_free is the boolean over the expressions lifting lifts. *)
+Definition no_sugar (x : expression) : Prop := is_tuple x = false /\ is_anonymous_component x = false.
+
+Lemma expr_sugar_free_of_spec : forall e,
+  (forall x, In x (sub_exprs e) -> no_sugar x) -> LiftFull.expr_sugar_free e = true.
+Proof.
+  apply (expression_ind' (fun e => (forall x, In x (sub_exprs e) -> no_sugar x) -> LiftFull.expr_sugar_free e = true)).
+  - intros m l o r IHl IHr H. cbn [LiftFull.expr_sugar_free]. rewrite IHl, IHr; [reflexivity| |];
+      intros x Hx; apply H; cbn [sub_exprs]; right; apply in_or_app; auto.
+  - intros m o r IHr H. cbn [LiftFull.expr_sugar_free]. apply IHr. intros x Hx. apply H. cbn [sub_exprs]. right. exact Hx.
+  - intros m c t f IHc IHt IHf H. cbn [LiftFull.expr_sugar_free]. rewrite IHc, IHt, IHf; [reflexivity| | |];
+      intros x Hx; apply H; cbn [sub_exprs]; right; apply in_or_app; [right; apply in_or_app; right|right; apply in_or_app; left|left]; exact Hx.
+  - intros m r IHr H. cbn [LiftFull.expr_sugar_free]. apply IHr. intros x Hx. apply H. cbn [sub_exprs]. right. exact Hx.
+  - intros m n acc IH H. change (LiftFull.expr_sugar_free (Variable_ m n acc)) with (forallb LiftFull.access_sugar_free acc).
+    apply forallb_forall. intros a Ha. rewrite Forall_forall in IH. specialize (IH a Ha).
+    destruct a as [nm|i]; [reflexivity|]. cbn [access_all] in IH. cbn [LiftFull.access_sugar_free]. apply IH.
+    intros x Hx. apply H. cbn [sub_exprs]. right. apply in_flat_map. exists (ArrayAccess i). split; [exact Ha|exact Hx].
+  - intros; reflexivity.
+  - intros m id args IH H. cbn [LiftFull.expr_sugar_free]. apply forallb_forall. intros a Ha.
+    rewrite Forall_forall in IH. apply (IH a Ha). intros x Hx. apply H. cbn [sub_exprs]. right.
+    apply in_flat_map. exists a. split; assumption.
+  - intros m id par ps ss names _ _ H. destruct (H _ (or_introl eq_refl)) as [_ H2]. discriminate H2.
+  - intros m vs IH H. cbn [LiftFull.expr_sugar_free]. apply forallb_forall. intros a Ha.
+    rewrite Forall_forall in IH. apply (IH a Ha). intros x Hx. apply H. cbn [sub_exprs]. right.
+    apply in_flat_map. exists a. split; assumption.
+  - intros m vs _ H. destruct (H _ (or_introl eq_refl)) as [H1 _]. discriminate H1.
+Qed.
+
+Lemma exprs_sugar_free_of_spec l :
+  (forall x, In x (flat_map sub_exprs l) -> no_sugar x) -> forallb LiftFull.expr_sugar_free l = true.
+Proof.
+  intros H. apply forallb_forall. intros e He. apply expr_sugar_free_of_spec. intros x Hx. apply H.
+  apply in_flat_map. exists e. split; assumption.
+Qed.
+
+Theorem stmt_sugar_free_of_spec : forall s, sugar_free_stmt s -> LiftFull.stmt_sugar_free s = true.
+Proof.
+  unfold sugar_free_stmt.
+  apply (statement_ind' (fun s =>
+    (forall x, In x (stmt_exprs s) -> no_sugar x) /\ (forall t, In t (sub_stmts s) -> is_multi_substitution t = false) ->
+    LiftFull.stmt_sugar_free s = true)).
+  - intros m c i e IHi IHe [He Hs]. cbn [LiftFull.stmt_sugar_free]. rewrite expr_sugar_free_of_spec, IHi.
+    + destruct e as [e'|]; [|reflexivity]. apply (IHe e' eq_refl). split.
+      * intros x Hx. apply He. cbn [stmt_exprs]. apply in_or_app. right. apply in_or_app. right. exact Hx.
+      * intros t Ht. apply Hs. cbn [sub_stmts]. right. apply in_or_app. right. exact Ht.
+    + split.
+      * intros x Hx. apply He. cbn [stmt_exprs]. apply in_or_app. right. apply in_or_app. left. exact Hx.
+      * intros t Ht. apply Hs. cbn [sub_stmts]. right. apply in_or_app. left. exact Ht.
+    + intros x Hx. apply He. cbn [stmt_exprs]. apply in_or_app. left. exact Hx.
+  - intros m c b IHb [He Hs]. cbn [LiftFull.stmt_sugar_free]. rewrite expr_sugar_free_of_spec, IHb; [reflexivity| |].
+    + split.
+      * intros x Hx. apply He. cbn [stmt_exprs]. apply in_or_app. right. exact Hx.
+      * intros t Ht. apply Hs. cbn [sub_stmts]. right. exact Ht.
+    + intros x Hx. apply He. cbn [stmt_exprs]. apply in_or_app. left. exact Hx.
+  - intros m v [He _]. cbn [LiftFull.stmt_sugar_free]. apply expr_sugar_free_of_spec. exact He.
+  - intros m t l IH [He Hs]. cbn [LiftFull.stmt_sugar_free]. apply forallb_forall. intros x Hx.
+    rewrite Forall_forall in IH. apply (IH x Hx). split.
+    + intros y Hy. apply He. cbn [stmt_exprs]. apply in_flat_map. exists x. split; assumption.
+    + intros y Hy. apply Hs. cbn [sub_stmts]. right. apply in_flat_map. exists x. split; assumption.
+  - intros m t n dims c [He _]. cbn [LiftFull.stmt_sugar_free]. apply exprs_sugar_free_of_spec. exact He.
+  - intros m v acc o r [He _]. cbn [LiftFull.stmt_sugar_free]. rewrite expr_sugar_free_of_spec.
+    + rewrite andb_true_r. apply forallb_forall. intros a Ha. destruct a as [nm|i]; [reflexivity|].
+      cbn [LiftFull.access_sugar_free]. apply expr_sugar_free_of_spec. intros x Hx. apply He. cbn [stmt_exprs].
+      apply in_or_app. left. unfold access_exprs. apply in_flat_map. exists (ArrayAccess i). split; assumption.
+    + intros x Hx. apply He. cbn [stmt_exprs]. apply in_or_app. right. exact Hx.
+  - intros m l o r [_ Hs]. specialize (Hs _ (or_introl eq_refl)). discriminate Hs.
+  - intros m l r [He _]. cbn [LiftFull.stmt_sugar_free]. rewrite !expr_sugar_free_of_spec; [reflexivity| |];
+      intros x Hx; apply He; cbn [stmt_exprs]; apply in_or_app; auto.
+  - intros m args [He _]. cbn [LiftFull.stmt_sugar_free]. apply forallb_forall. intros a Ha.
+    destruct a as [str|e]; [reflexivity|]. cbn [LiftFull.logarg_sugar_free]. apply expr_sugar_free_of_spec.
+    intros x Hx. apply He. cbn [stmt_exprs]. apply in_flat_map. exists (LogExp e). split; assumption.
+  - intros m l IH [He Hs]. cbn [LiftFull.stmt_sugar_free]. apply forallb_forall. intros x Hx.
+    rewrite Forall_forall in IH. apply (IH x Hx). split.
+    + intros y Hy. apply He. cbn [stmt_exprs]. apply in_flat_map. exists x. split; assumption.
+    + intros y Hy. apply Hs. cbn [sub_stmts]. right. apply in_flat_map. exists x. split; assumption.
+  - intros m a [He _]. cbn [LiftFull.stmt_sugar_free]. apply expr_sugar_free_of_spec. exact He.
 Qed.
